@@ -27,7 +27,8 @@ PROPS = {
     },
     "C06": {
         "lean": ["PnaVerif.Props.Consts", "PnaVerif.Props.C06", "PnaVerif.Props.C06Archive"],
-        "families": ["truncate"],
+        "families": ["truncate", "cli-truncate"],
+        "cli": True,
         "trusted": COMMON_TRUST,
         "text": "every proper prefix of a chunk is eof (proved); exhaustive cut positions on real archives",
     },
